@@ -1,0 +1,122 @@
+//go:build verif
+
+// Contracts for the start-up paths (operations.go, server.go): C28. Comment-only file.
+package absnfs
+
+//@ func NewServer
+//@ prop C28
+//@ ensures [server-or-error] isnil(result1) <==> result0 != nil
+//@ ensures [options-kept] isnil(result1) ==> result0.options.UseRecordMarking == options.UseRecordMarking && result0.options.Port == options.Port && result0.handler == nil
+
+//@ func Server.SetHandler
+//@ prop C28
+//@ requires s != nil
+//@ ensures [handler] s.handler == handler && s.options.UseRecordMarking == old(s.options.UseRecordMarking)
+
+//@ func AbsfsNFS.Export
+//@ prop C28
+//@ requires s != nil && curPolicy(s) != nil && curTuning(s) != nil
+// the quick-start path serves record-marked RPC on behalf of this export
+//@ ensures [record-marking] isnil(result) ==> s.exportServer != nil && s.exportServer.options.UseRecordMarking && s.exportServer.handler == s
+
+//@ func Server.Listen
+//@ prop C28 C30
+//@ requires s != nil && (s.handler != nil ==> curPolicy(s.handler) != nil && curTuning(s.handler) != nil)
+// starting the listener never changes the framing mode or the handler
+//@ ensures [keeps-framing] s.options.UseRecordMarking == old(s.options.UseRecordMarking) && s.handler == old(s.handler)
+//@ ensures [needs-handler] old(s.handler) == nil ==> !isnil(result)
+// C30: with TLS enabled the listener is a TLS listener over exactly the configuration BuildConfig made of
+// the policy's TLS settings; a plain TCP listener is used only when TLS is off
+//@ ensures [tls-listener] isnil(result) && curPolicy(s.handler).TLS != nil && curPolicy(s.handler).TLS.Enabled ==> lsncfg[valof(s.listener)] != 0 && lsncfg[valof(s.listener)] == curPolicy(s.handler).TLS.tlsConfig && servesFrom(curPolicy(s.handler).TLS.tlsConfig, curPolicy(s.handler).TLS)
+//@ ensures [plain-only-when-off] isnil(result) && !(curPolicy(s.handler).TLS != nil && curPolicy(s.handler).TLS.Enabled) ==> lsncfg[valof(s.listener)] == 0
+//@ ensures [policy-kept] s.handler != nil ==> curPolicy(s.handler) == old(curPolicy(s.handler))
+
+//@ func NewPortmapper
+//@ prop C28 C27
+//@ ensures [empty] result != nil && fresh(result) && len(result.mappings) == 0 && pmUnique(result)
+
+//@ func Portmapper.StartOnPort
+//@ prop C28 C27
+//@ requires pm != nil && pmUnique(pm)
+//@ ensures [unique] pmUnique(pm)
+
+//@ func Portmapper.Start
+//@ prop C28 C27
+//@ requires pm != nil && pmUnique(pm)
+//@ ensures [unique] pmUnique(pm)
+
+//@ func Server.StartWithPortmapper
+//@ prop C28
+//@ requires s != nil && (s.handler != nil ==> curPolicy(s.handler) != nil && curTuning(s.handler) != nil)
+// record marking is switched on before the listener is started
+//@ callassert Server.Listen : [flag-set-before-listen] s.options.UseRecordMarking
+//@ ensures [record-marking] isnil(result) ==> s.options.UseRecordMarking
+
+// connection goroutine spawned by acceptLoop: the framing used is the one configured
+//@ func Server.acceptLoop$1
+//@ prop C28 C17
+//@ thread
+//@ abstract
+//@ requires s != nil && connInv(s) && (s.handler != nil ==> curTuning(s.handler) != nil)
+//@ callassert Server.handleConnection : [raw-only-when-configured] !s.options.UseRecordMarking
+//@ callassert Server.handleConnectionWithRecordMarking : [record-marking-when-configured] s.options.UseRecordMarking
+
+// record-marked connection I/O is the composition of the codecs proved under C13
+//@ func recordMarkingConnIO.ReadCall
+//@ prop C28 C15
+//@ requires rm != nil && rm.rmConn != nil && rm.rmConn.reader != nil && rm.rmConn.reader.fragmentBuf != nil && rm.rmConn.reader.MaxRecordSize <= 1073741824
+//@ ensures [call-or-error] isnil(result2) ==> result0 != nil && !isnil(result1)
+// the body reader handed to the procedure handler holds exactly the bytes of the record after the call header
+//@ ensures [body-is-rest-of-record] isnil(result2) ==> rpos[valof(result1)] == 0 && rlen[valof(result1)] >= 0
+//@ ensures [error-no-call] !isnil(result2) ==> result0 == nil
+
+// goroutines started by Listen: detached threads (their effects are interference, see 'writers' below)
+//@ func Server.Listen$1
+//@ prop C28
+//@ thread
+//@ abstract
+//@ requires s != nil
+
+//@ func Server.Listen$2
+//@ prop C28
+//@ thread
+//@ abstract
+//@ requires s != nil
+
+// the framing flag, the handler and the listener's TLS settings are stable once the server runs: no
+// function other than the constructors/starters below contains a store to them
+//@ writers [framing-flag-writers] C28 : Server.options.UseRecordMarking : NewServer, Server.StartWithPortmapper
+//@ writers [handler-writers] C28 : Server.handler : NewServer, Server.SetHandler
+
+// the portmapper's accept goroutine is a detached thread as well
+//@ func Portmapper.acceptLoop
+//@ prop C28
+//@ thread
+//@ abstract
+//@ requires pm != nil
+
+// The per-connection request loop is outside this group of contracts. What is relied on here is only the
+// monitor invariant of s.connMutex (connInv, re-established by every critical section proved under C17)
+// and that the live tuning snapshot stays non-nil (C24): assumption A-LOCKINV.
+//@ func Server.handleConnectionLoop
+//@ prop C28 C17
+//@ assumed
+//@ requires s != nil
+//@ modifies everything
+//@ ensures connInv(s) && (s.handler != nil ==> curTuning(s.handler) != nil)
+
+//@ func Server.handleConnection
+//@ prop C28 C17
+//@ requires s != nil
+//@ modifies everything
+// raw mode: the loop reads and writes this connection unframed
+//@ callassert Server.handleConnectionLoop : [raw-io] typeof(arg3) == typeid(*rawConnIO) && valof(arg3) == cio && cio != nil && cio.conn == conn && cio.server == s
+//@ ensures [inv] connInv(s) && (s.handler != nil ==> curTuning(s.handler) != nil)
+
+//@ func Server.handleConnectionWithRecordMarking
+//@ prop C28 C17
+//@ requires s != nil
+//@ modifies everything
+// record-marking mode: the loop's I/O is a record-marking codec whose reader and writer are this connection
+//@ callassert Server.handleConnectionLoop : [framed-io] typeof(arg3) == typeid(*recordMarkingConnIO) && valof(arg3) == cio && cio != nil && cio.server == s && cio.rmConn != nil && cio.rmConn.reader != nil && cio.rmConn.reader.r == conn && cio.rmConn.reader.fragmentBuf != nil && cio.rmConn.reader.MaxRecordSize == 1048576 && cio.rmConn.writer != nil && cio.rmConn.writer.w == conn && cio.rmConn.writer.maxFragment == 1048576
+//@ ensures [inv] connInv(s) && (s.handler != nil ==> curTuning(s.handler) != nil)
